@@ -7,24 +7,24 @@ import (
 	"time"
 )
 
-// stallMonitor is a heartbeat: a goroutine that sleeps 500 µs at a time and records every
+// c17StallMonitor is a heartbeat: a goroutine that sleeps 500 µs at a time and records every
 // wake-up that came more than 3 ms late. The timing-sensitive drivers (C17, C19) use it to
 // tell "the process was not scheduled for a while" from "the code under test was late": a case
 // during which the heartbeat stalled is run again, and dropped (counted as skipped_stalled,
 // never a verdict) if that keeps happening.
-type stallMonitor struct {
+type c17StallMonitor struct {
 	mu     sync.Mutex
-	events []stallEvent
+	events []c17StallEvent
 	stop   chan struct{}
 }
 
-type stallEvent struct {
+type c17StallEvent struct {
 	at  time.Time
 	gap time.Duration
 }
 
-func startStallMonitor() *stallMonitor {
-	m := &stallMonitor{stop: make(chan struct{})}
+func c17StartStallMonitor() *c17StallMonitor {
+	m := &c17StallMonitor{stop: make(chan struct{})}
 	go func() {
 		const tick = 500 * time.Microsecond
 		for {
@@ -37,7 +37,7 @@ func startStallMonitor() *stallMonitor {
 			time.Sleep(tick)
 			if gap := time.Since(t) - tick; gap > 3*time.Millisecond {
 				m.mu.Lock()
-				m.events = append(m.events, stallEvent{time.Now(), gap})
+				m.events = append(m.events, c17StallEvent{time.Now(), gap})
 				m.mu.Unlock()
 			}
 		}
@@ -45,10 +45,10 @@ func startStallMonitor() *stallMonitor {
 	return m
 }
 
-func (m *stallMonitor) Stop() { close(m.stop) }
+func (m *c17StallMonitor) Stop() { close(m.stop) }
 
 // MaxGap returns the longest recorded heartbeat delay that ended within [from, to].
-func (m *stallMonitor) MaxGap(from, to time.Time) time.Duration {
+func (m *c17StallMonitor) MaxGap(from, to time.Time) time.Duration {
 	m.mu.Lock()
 	defer m.mu.Unlock()
 	var g time.Duration
